@@ -487,9 +487,61 @@ def stress(ctx, seconds):
     return writes, sum(r[0] for r in res), sum(r[1] for r in res)
 
 
+def renderer_cases(ctx):
+    """what `maestro status --layout narrow` shows of a table the reader returned: every parameter of every
+    step exactly once and in the row's order, for steps with no parameter up to seven (the other layouts do
+    not show parameters: they must accept the table)"""
+    from maestrowf import status_renderer_factory
+    rng = ctx.rng
+    cases = []
+    for rep in range(6):
+        counts = [0, 1, 2, 3, 4, 5, 7]
+        rng.shuffle(counts)
+        names = ["step%d" % i for i in range(len(counts))]
+        params = [[("P%d" % j, rng.choice(["1", "2.5", "abc", "x-%d" % j])) for j in range(n_)] for n_ in counts]
+        table = {"Step Name": names, "Job ID": [str(100 + i) for i in range(len(names))],
+                 "Workspace": ["ws%d" % i for i in range(len(names))],
+                 "State": [rng.choice(["FINISHED", "RUNNING", "FAILED"]) for _ in names]}
+        for col in ("Run Time", "Elapsed Time", "Start Time", "Submit Time", "End Time"):
+            table[col] = ["--"] * len(names)
+        table["Number Restarts"] = ["0"] * len(names)
+        table["Params"] = [";".join("%s:%s" % kv for kv in ps) for ps in params]
+        mon = []
+        for layout in ("flat", "legacy", "narrow"):
+            try:
+                rend = status_renderer_factory.get_renderer(layout, True, True)
+                rend.layout(status_data={k: list(v) for k, v in table.items()}, study_title="t")
+                text = rend.render_to_str() if hasattr(rend, "render_to_str") else ""
+            except Exception as e:      # noqa
+                mon.append(("renderers-accept", "layout %s raised %s: %s" % (layout, type(e).__name__, str(e)[:80])))
+                continue
+            if layout != "narrow" or not text:
+                continue
+            blocks = text.split("STEP:")[1:]
+            if len(blocks) != len(names):
+                mon.append(("renderers-show-params", "narrow layout shows %d steps of %d" % (len(blocks), len(names))))
+                continue
+            for nm, ps, block in zip(names, params, blocks):
+                shown = []
+                if "Step Parameters" in block:
+                    for line in block.split("Step Parameters", 1)[1].split("\n")[1:]:
+                        toks = line.split()
+                        if toks and not set(line.strip()) <= set("\u2500\u2501-"):
+                            shown.extend(toks)
+                want = [x for kv in ps for x in kv]
+                if shown != want:
+                    mon.append(("renderers-show-params", "narrow layout, %s with %d parameters: the table row says %s, "
+                                "the display shows %s" % (nm, len(ps), want, shown)))
+                    break
+        cases.append(Case({"kind": "renderers", "params_per_step": counts, "table": table}, [], [], mon[:3], True,
+                          key="renderers:%d:%s" % (rep, counts)))
+    return cases
+
+
 def run(ctx, escalated=False):
     quick = ctx.tier == "quick" and not escalated
     cases = lock_cases(ctx)
+    cases += renderer_cases(ctx)
     n_rt = 1500 if quick else 40000
     n_st = 150 if quick else 3000
     for _ in range(n_rt):
